@@ -13,7 +13,7 @@ PROP_ID = "C14"
 LEVEL = "exploration"
 RULE = (
     "cases = (tree <= 20 nodes of AnyNode where each node carries the searched attributes 'name'/'kind' only with some "
-    "probability, start node, stop set, filtered-out set, maxlevel, attribute name and value); for every case all 25 "
+    "probability (values include strings with '%' and a wildcard object equal to everything), start node, stop set, filtered-out set, maxlevel, attribute name and value); for every case all 25 "
     "(mincount, maxcount) combinations from {None, 0, c-1, c, c+1} around the real match count c are executed for findall and "
     "findall_by_attr, in anytree.search and anytree.cachedsearch, keyword and positional forms, plus find/find_by_attr. "
     "Shapes <= 5 nodes are enumerated with systematic attribute patterns; the rest is Hypothesis-generated. "
@@ -24,7 +24,8 @@ ASSUMPTIONS = [
     "reference result = reference pre-order restricted as in C06",
     "CountError message is only required to contain the match count and the violated bound as decimal numbers before the result repr",
 ]
-VALUES = [1, "1", 2, "b", None, {"list": [1]}, {"tuple": [1]}, {"list": []}]
+# '%' in values ends up in node reprs and so in CountError messages; {"anyeq": 1} is a wildcard value (equal to everything, like unittest.mock.ANY)
+VALUES = [1, "1", 2, "b", None, {"list": [1]}, {"tuple": [1]}, {"list": []}, "50%", "%d %s", "%%", {"anyeq": 1}]
 ATTR_NAMES = ["name", "kind", "parent.name", "root.kind", "a.b"]
 # attributes that exist without living in the instance dict: read-only node properties and a class-level default
 SEARCH_NAMES = ATTR_NAMES + ["depth", "height", "is_leaf", "colour"]
@@ -33,8 +34,25 @@ SEARCH_NAMES = ATTR_NAMES + ["depth", "height", "is_leaf", "colour"]
 def val(spec):
     """Attribute / search values are JSON in the case description; lists and tuples are tagged."""
     if isinstance(spec, dict):
+        if "anyeq" in spec:
+            return AnyEq()
         return list(spec["list"]) if "list" in spec else tuple(spec["tuple"])
     return spec
+
+
+class AnyEq(object):
+    """A value that compares equal to everything ('all nodes that have the attribute')."""
+
+    def __eq__(self, other):
+        return True
+
+    def __ne__(self, other):
+        return False
+
+    __hash__ = None
+
+    def __repr__(self):
+        return "<ANY 100%>"
 class ColourNode(AnyNode):
     colour = 1  # class-level default; some instances override it
 
